@@ -125,11 +125,13 @@ func NewBuilderCase(g *Gen, id int) *Case {
 		case c < 88:
 			l := g.leaf(node.Kind)
 			calls = append(calls, "CDefault "+CoqLeaf(l))
+			node.ExtraStrs = append(node.ExtraStrs, l.S)
 			apply = append(apply, func(s *z.StringSchema[string]) { s.Default(l.S) })
 			applyI = append(applyI, func(s *z.NumberSchema[int]) { s.Default(int(l.I)) })
 		case c < 95:
 			l := g.leaf(node.Kind)
 			calls = append(calls, "CCatch "+CoqLeaf(l))
+			node.ExtraStrs = append(node.ExtraStrs, l.S)
 			apply = append(apply, func(s *z.StringSchema[string]) { s.Catch(l.S) })
 			applyI = append(applyI, func(s *z.NumberSchema[int]) { s.Catch(int(l.I)) })
 		default:
